@@ -89,7 +89,7 @@ static int fd_is_open(int fd) { return fcntl(fd, F_GETFD) != -1 || errno != EBAD
 /* fd-table signature: which of the first MAXFD descriptors are open.  (Same idea as
  * mcx_fd_signature(), without opendir's 32 KiB ASan-tracked buffer per call; descriptors are
  * handed out lowest-first and an execution never holds more than ~20.) */
-#define MAXFD 96
+#define MAXFD 64
 static uint64_t fd_table_signature(void)
 {
 	uint64_t h = 0x66647369;
